@@ -245,6 +245,47 @@ def prototype_validation(ctx, prog, rule):
     for name in ("prototype-validation", "capacity"):
         for b in S3.steps.get(name, []):
             ctx.ob(rule, "checked/%s/%s" % (short(n.path), name), branch_of_call(n, b) is not None, "result of %s is propagated with ?" % name, where=n.file_line(b))
+    # Extension::validate_prototype: every record with an extension name has both its namespace and its name checked,
+    # and an unregistered namespace is rejected
+    h = prog.fn("extension::Extension::validate_prototype")
+    ctx.fn_seen(h)
+    Rh = Resolver(h)
+    variants = [v["name"] for v in prog.adt("record::RecordName")["variants"]]
+    uidx = str(variants.index("Unknown")) if "Unknown" in variants else None
+    loops_h = natural_loops(h)
+    okx, why = False, "no test of the record name for RecordName::Unknown found"
+    for bi in h.cfg():
+        t = h.blocks[bi]["term"]
+        if t["k"] != "switch" or uidx is None:
+            continue
+        dl = op_place(t["discr"])
+        d = strip(Rh.place(dl)) if dl else None
+        if not (d and d[0] == "discr" and strip(d[1])[0] == "field" and strip(d[1])[2] == "name"):
+            continue
+        e = switch_edges(h, bi)
+        u = e.get(uidx)
+        if u is None:
+            continue
+        vcalls = [(b2, tree_str(strip_deep(Rh.operand(tt["args"][0])))) for b2, tt in h.calls(lambda c, t: c == "extension::Extension::validate_name")]
+        checked = {("namespace" if "namespace" in s_ else "name" if s_.endswith(".name") or "Unknown.name" in s_ else s_): b2 for b2, s_ in vcalls}
+        heads = [hd for hd, body in loops_h.items() if bi in body]
+        targets = set(heads) | set(h.return_blocks())
+        bad = h.err_exit_blocks()
+        missing = []
+        for part in ("namespace", "name"):
+            cb = checked.get(part)
+            if cb is None or branch_of_call(h, cb) is None or find_path(h.cfg(), [u], targets, bad | {cb}) is not None:
+                missing.append(part)
+        # the registration test: an Unknown record whose namespace matches no registered extension cannot pass
+        import elems
+        reg = False
+        for b2, tt in h.calls(lambda c, t: c.rsplit("::", 1)[-1] == "any"):
+            for sw, tr, fa in bool_switches(h, b2):
+                if fa is not None and find_path(h.cfg(), [fa], targets, bad) is None:
+                    reg = True
+        okx = not missing and reg
+        why = "unchecked on some path: %s; unregistered namespace rejected: %s" % (missing or "none", reg)
+    ctx.ob(rule, "extension-names-validated/Extension::validate_prototype", okx, "every extension attribute has its namespace and its name validated and its namespace registered (%s)" % why)
     # register_extension: name validation and duplicate check dominate the push
     r = prog.fn("e57_writer::E57Writer::<T>::register_extension")
     S4 = Steps(ctx, r, rule)
